@@ -12,6 +12,7 @@ package network
 import (
 	"bytes"
 	"crypto/sha256"
+	"encoding/binary"
 	"fmt"
 	"sort"
 	"strings"
@@ -163,6 +164,139 @@ func c12BlockDiff(a, b *hotstuff.Block) string {
 	return ""
 }
 
+// ---- command batches and their boundary-shifted re-splits -----------------------------------
+
+// c12Cmds renders a batch as the sequence of (client, sequence number, data) it is.
+func c12Cmds(b *clientpb.Batch) string {
+	var sb strings.Builder
+	sb.WriteByte('[')
+	for i, c := range b.GetCommands() {
+		if i > 0 {
+			sb.WriteByte(' ')
+		}
+		fmt.Fprintf(&sb, "(%d,%d,%x)", c.GetClientID(), c.GetSequenceNumber(), c.GetData())
+	}
+	sb.WriteByte(']')
+	return sb.String()
+}
+
+func c12Cmd(client uint32, seq uint64, data []byte) *clientpb.Command {
+	return &clientpb.Command{ClientID: client, SequenceNumber: seq, Data: append([]byte{}, data...)}
+}
+
+// headers an unframed hand-written encoding might put in front of a command's data
+func c12Headers(c *clientpb.Command) [][]byte {
+	le := binary.LittleEndian.AppendUint64(binary.LittleEndian.AppendUint32(nil, c.GetClientID()), c.GetSequenceNumber())
+	be := binary.BigEndian.AppendUint64(binary.BigEndian.AppendUint32(nil, c.GetClientID()), c.GetSequenceNumber())
+	sw := binary.LittleEndian.AppendUint32(binary.LittleEndian.AppendUint64(nil, c.GetSequenceNumber()), c.GetClientID())
+	return [][]byte{le, be, sw, nil}
+}
+
+type c12Twin struct {
+	batch *clientpb.Batch
+	how   string
+}
+
+// c12Resplits returns batches that carry the same bytes as b under some unframed concatenation but cut
+// the command boundaries elsewhere: adjacent commands merged into one Data (with and without the next
+// command's header embedded), one command's Data split at every offset into two commands whose header is
+// taken from the data, bytes moved across a boundary, empty commands added.
+func c12Resplits(b *clientpb.Batch) []c12Twin {
+	cs := b.GetCommands()
+	with := func(i int, repl ...*clientpb.Command) *clientpb.Batch {
+		out := &clientpb.Batch{}
+		for j, c := range cs {
+			if j == i {
+				out.Commands = append(out.Commands, repl...)
+			} else {
+				out.Commands = append(out.Commands, c12Cmd(c.GetClientID(), c.GetSequenceNumber(), c.GetData()))
+			}
+		}
+		return out
+	}
+	var tw []c12Twin
+	// merge i and i+1
+	for i := 0; i+1 < len(cs); i++ {
+		for hi, hdr := range c12Headers(cs[i+1]) {
+			data := append(append(append([]byte{}, cs[i].GetData()...), hdr...), cs[i+1].GetData()...)
+			out := &clientpb.Batch{}
+			for j, c := range cs {
+				switch j {
+				case i:
+					out.Commands = append(out.Commands, c12Cmd(c.GetClientID(), c.GetSequenceNumber(), data))
+				case i + 1:
+				default:
+					out.Commands = append(out.Commands, c12Cmd(c.GetClientID(), c.GetSequenceNumber(), c.GetData()))
+				}
+			}
+			tw = append(tw, c12Twin{out, fmt.Sprintf("commands %d and %d merged into one (header form %d embedded in the data)", i, i+1, hi)})
+		}
+		// one byte moved across the boundary
+		if d := cs[i].GetData(); len(d) > 0 {
+			a := c12Cmd(cs[i].GetClientID(), cs[i].GetSequenceNumber(), d[:len(d)-1])
+			nb := c12Cmd(cs[i+1].GetClientID(), cs[i+1].GetSequenceNumber(), append([]byte{d[len(d)-1]}, cs[i+1].GetData()...))
+			out := with(i, a)
+			out.Commands[i+1] = nb
+			tw = append(tw, c12Twin{out, fmt.Sprintf("last data byte of command %d moved to the front of command %d", i, i+1)})
+		}
+	}
+	// split command i at every offset
+	for i, c := range cs {
+		d := c.GetData()
+		for k := 0; k <= len(d); k++ {
+			if k+12 <= len(d) {
+				rest := d[k:]
+				tw = append(tw,
+					c12Twin{with(i, c12Cmd(c.GetClientID(), c.GetSequenceNumber(), d[:k]),
+						c12Cmd(binary.LittleEndian.Uint32(rest), binary.LittleEndian.Uint64(rest[4:]), rest[12:])),
+						fmt.Sprintf("command %d split at offset %d, the second command's header (LE client, LE seq) read from the data", i, k)},
+					c12Twin{with(i, c12Cmd(c.GetClientID(), c.GetSequenceNumber(), d[:k]),
+						c12Cmd(binary.BigEndian.Uint32(rest), binary.BigEndian.Uint64(rest[4:]), rest[12:])),
+						fmt.Sprintf("command %d split at offset %d, header (BE) read from the data", i, k)},
+					c12Twin{with(i, c12Cmd(c.GetClientID(), c.GetSequenceNumber(), d[:k]),
+						c12Cmd(binary.LittleEndian.Uint32(rest[8:]), binary.LittleEndian.Uint64(rest), rest[12:])),
+						fmt.Sprintf("command %d split at offset %d, header (LE seq, LE client) read from the data", i, k)})
+			}
+			if k > 0 && k < len(d) && (k < 3 || k%5 == 0) {
+				tw = append(tw, c12Twin{with(i, c12Cmd(c.GetClientID(), c.GetSequenceNumber(), d[:k]), c12Cmd(c.GetClientID(), c.GetSequenceNumber(), d[k:])),
+					fmt.Sprintf("command %d split at offset %d into two commands of the same client and sequence number", i, k)})
+			}
+		}
+	}
+	// empty commands
+	app := with(-1)
+	app.Commands = append(app.Commands, &clientpb.Command{})
+	pre := &clientpb.Batch{Commands: append([]*clientpb.Command{{}}, with(-1).Commands...)}
+	tw = append(tw, c12Twin{app, "an empty command appended"}, c12Twin{pre, "an empty command prepended"})
+	if len(cs) > 0 {
+		last := with(-1)
+		last.Commands = last.Commands[:len(cs)-1]
+		tw = append(tw, c12Twin{last, "last command dropped"})
+	}
+	return tw
+}
+
+// c12Batches: counts 0..3, data empty / short / looking like an encoded header / long
+func c12Batches(r interface{ Read([]byte) (int, error) }) []*clientpb.Batch {
+	hdr := binary.LittleEndian.AppendUint64(binary.LittleEndian.AppendUint32(nil, 7), 9)
+	hdrBE := binary.BigEndian.AppendUint64(binary.BigEndian.AppendUint32(nil, 7), 9)
+	long := make([]byte, 30)
+	_, _ = r.Read(long)
+	two := append(append(append([]byte("ab"), hdr...), []byte("cd")...), hdrBE...)
+	return []*clientpb.Batch{
+		{},
+		{Commands: []*clientpb.Command{c12Cmd(1, 1, nil)}},
+		{Commands: []*clientpb.Command{c12Cmd(1, 1, []byte("x"))}},
+		{Commands: []*clientpb.Command{c12Cmd(7, 9, hdr)}},
+		{Commands: []*clientpb.Command{c12Cmd(3, 1<<40, two)}},
+		{Commands: []*clientpb.Command{c12Cmd(1, 1, []byte("pay 5")), c12Cmd(2, 1, []byte("pay 7"))}},
+		{Commands: []*clientpb.Command{c12Cmd(0, 0, nil), c12Cmd(0, 0, nil)}},
+		{Commands: []*clientpb.Command{c12Cmd(1<<32-1, 1<<64-1, long), c12Cmd(7, 9, nil)}},
+		{Commands: []*clientpb.Command{c12Cmd(5, 2, hdr), c12Cmd(7, 9, hdr), c12Cmd(6, 3, []byte{0})}},
+		{Commands: []*clientpb.Command{c12Cmd(1, 2, []byte("a")), c12Cmd(1, 3, nil), c12Cmd(1, 4, []byte("bc"))}},
+	}
+}
+
 func c12WireBlock(pb *hotstuffpb.Block) *hotstuffpb.Block {
 	bs, err := proto.Marshal(pb)
 	if err != nil {
@@ -215,7 +349,76 @@ func TestVerifC12(t *testing.T) {
 		b := hotstuff.NewBlock(parent.Hash(), qc, &clientpb.Batch{}, hotstuff.View(7+i), hotstuff.ID(1+i))
 		pool = append(pool, b)
 	}
+	// blocks carrying the batches of the collision-hunting family
+	nPlain := len(pool)
+	for i, batch := range c12Batches(r) {
+		qc := hotstuff.NewQuorumCert(c12MultiSig([]hotstuff.ID{1, 2, 3}, byte(i)), parent.View(), parent.Hash())
+		b := hotstuff.NewBlock(parent.Hash(), qc, batch, hotstuff.View(20+i), hotstuff.ID(1+i%4))
+		b.SetTimestamp(time.Unix(1_710_000_000, int64(i)))
+		pool = append(pool, b)
+	}
+	batchBlocks := pool[nPlain:]
 	pool = append(pool, gen)
+
+	// ---- collision hunt: different command sequences must give different bytes-to-sign / hashes ----
+	// (a hash, and every vote and certificate over it, must name ONE block)
+	for _, b := range batchBlocks {
+		twins := c12Resplits(b.Commands())
+		for _, tb := range batchBlocks { // and the other generated batches as they are
+			twins = append(twins, c12Twin{tb.Commands(), "another generated batch"})
+		}
+		for _, tw := range twins {
+			if c12Cmds(tw.batch) == c12Cmds(b.Commands()) {
+				continue
+			}
+			o := hotstuff.NewBlock(b.Parent(), b.QuorumCert(), tw.batch, b.View(), b.Proposer())
+			o.SetTimestamp(b.Timestamp())
+			v.Seen("collide|"+c12Cmds(b.Commands())+"|"+c12Cmds(tw.batch), true, map[string]any{"commands": c12Cmds(b.Commands()), "twin": c12Cmds(tw.batch)})
+			v.Count("collision-hunt.pairs")
+			same := o.Hash() == b.Hash() || bytes.Equal(o.ToBytes(), b.ToBytes())
+			v.Oracle(!same, "block:different-commands-same-hash",
+				"two blocks that differ only in their command batch ("+tw.how+") have the same ToBytes()/Hash(): the hash, and every vote and certificate over it, names both",
+				map[string]any{"commands_a": c12Cmds(b.Commands()), "commands_b": c12Cmds(tw.batch), "how": tw.how,
+					"hash_a": fmt.Sprintf("%x", sha256.Sum256(b.ToBytes())), "hash_b": fmt.Sprintf("%x", sha256.Sum256(o.ToBytes())),
+					"bytes_a": fmt.Sprintf("%x", b.ToBytes()), "bytes_b": fmt.Sprintf("%x", o.ToBytes()),
+					"block": b.String()})
+		}
+	}
+	// the batch must also be framed against the certificate that follows it in Block.ToBytes: the pair
+	// below moves 8 bytes between a command and the view field of the certificate
+	// (fixes/C12-block-bytes-frame-batch.patch)
+	{
+		d := []byte{0xd0, 0xd1, 0xd2, 0xd3}
+		batch2 := &clientpb.Batch{Commands: []*clientpb.Command{{Data: d}}}
+		p := batch2.Marshal() // 0a 06 1a 04 d0 d1 d2 d3
+		var h2 hotstuff.Hash
+		copy(h2[:], "the block certified by QC 2 ....")
+		s2 := []byte("signature-bytes-of-qc2")
+		v2 := hotstuff.View(41)
+		qc2 := hotstuff.NewQuorumCert(crypto.NewMulti(crypto.RestoreECDSASignature(s2, 1)), v2, h2)
+		var h1 hotstuff.Hash
+		copy(h1[:], append(v2.ToBytes(), h2[:24]...))
+		s1 := append(append([]byte{}, h2[24:]...), s2...)
+		qc1 := hotstuff.NewQuorumCert(crypto.NewMulti(crypto.RestoreECDSASignature(s1, 1)), hotstuff.View(binary.LittleEndian.Uint64(p)), h1)
+		b1 := hotstuff.NewBlock(parent.Hash(), qc1, &clientpb.Batch{}, 42, 1)
+		b2 := hotstuff.NewBlock(parent.Hash(), qc2, batch2, 42, 1)
+		b1.SetTimestamp(time.Unix(1_720_000_000, 5))
+		b2.SetTimestamp(time.Unix(1_720_000_000, 5))
+		v.Seen("collide|batch-certificate-boundary", true, map[string]any{"commands_a": c12Cmds(b1.Commands()), "commands_b": c12Cmds(b2.Commands())})
+		v.Count("collision-hunt.batch-certificate-shift")
+		v.Oracle(len(p) == 8 && b1.Hash() != b2.Hash() && !bytes.Equal(b1.ToBytes(), b2.ToBytes()), "block:different-blocks-same-hash:batch-certificate-boundary",
+			"a block without commands and a block with one command have the same ToBytes()/Hash(): the 8 bytes of the command batch are the view field of the other block's certificate",
+			map[string]any{"block_a": b1.String(), "commands_a": c12Cmds(b1.Commands()), "block_b": b2.String(), "commands_b": c12Cmds(b2.Commands()),
+				"bytes_a": fmt.Sprintf("%x", b1.ToBytes()), "bytes_b": fmt.Sprintf("%x", b2.ToBytes())})
+		// and the fetch check accepts one for the other
+		h := b2.Hash()
+		got, found := qspec{}.RequestBlockQF(&hotstuffpb.BlockHash{Hash: h[:]}, map[uint32]*hotstuffpb.Block{3: c12WireBlock(hotstuffpb.BlockToProto(b1))})
+		v.Oracle(!(found && c12BlockDiff(b2, hotstuffpb.BlockFromProto(got)) != ""), "fetch:accepted-block-differs-from-named-block:commands",
+			"RequestBlockQF accepted the command-less block for the hash of the block with one command (batch/certificate boundary shift)",
+			map[string]any{"named_block_commands": c12Cmds(b2.Commands()), "accepted_block_commands": c12Cmds(b1.Commands()),
+				"requested_hash": fmt.Sprintf("%x", h[:]), "named_block": b2.String(), "accepted_block": b1.String(),
+				"accepted_reply_wire_hex": fmt.Sprintf("%x", c12Marshal(hotstuffpb.BlockToProto(b1)))})
+	}
 
 	// a lying reply derived from the honest one
 	lie := func(orig *hotstuff.Block, kind int) (*hotstuffpb.Block, string) {
@@ -264,6 +467,16 @@ func TestVerifC12(t *testing.T) {
 		case 8:
 			pb.Timestamp = nil
 			return pb, "no timestamp"
+		case 10: // the same command bytes cut at other boundaries
+			if tw := c12Resplits(orig.Commands()); len(tw) > 0 {
+				t := tw[r.Intn(len(tw))]
+				if c12Cmds(t.batch) != c12Cmds(orig.Commands()) {
+					pb.Commands = t.batch
+					return pb, "re-split commands: " + t.how
+				}
+			}
+			pb.Commands = &clientpb.Batch{Commands: []*clientpb.Command{{}}}
+			return pb, "commands: one empty command"
 		default:
 			pb.QC = nil
 			return pb, "no qc"
@@ -273,6 +486,9 @@ func TestVerifC12(t *testing.T) {
 	N := v.Pick(400, 5000)
 	for i := 0; i < N; i++ {
 		orig := pool[r.Intn(len(pool))]
+		if r.Intn(3) == 0 {
+			orig = batchBlocks[r.Intn(len(batchBlocks))]
+		}
 		h := orig.Hash()
 		req := h[:]
 		reqKind := "hash of a stored block"
@@ -302,6 +518,8 @@ func TestVerifC12(t *testing.T) {
 				pb, what = hotstuffpb.BlockToProto(pool[r.Intn(len(pool))]), "some stored block"
 			case r.Intn(3) == 0:
 				pb, what = lie(orig, 7)
+			case r.Intn(3) == 0:
+				pb, what = lie(orig, 10)
 			default:
 				pb, what = lie(orig, r.Intn(10))
 			}
@@ -413,6 +631,7 @@ func TestVerifC12(t *testing.T) {
 				ok = false
 				in := map[string]any{"requested_hash": fmt.Sprintf("%x", want[:]), "returned_from_node": node, "returned_reply": whats[node],
 					"named_block": orig.String(), "named_block_qc_signers": c12Signers(orig),
+					"named_block_commands": c12Cmds(orig.Commands()), "accepted_block_commands": c12Cmds(blk.Commands()),
 					"accepted_block": blk.String(), "accepted_block_qc_signers": c12Signers(blk),
 					"accepted_block_hash": fmt.Sprintf("%x", sha256.Sum256(blk.ToBytes())), "replies": desc,
 					"accepted_reply_wire_hex": fmt.Sprintf("%x", c12Marshal(got))}
@@ -422,7 +641,7 @@ func TestVerifC12(t *testing.T) {
 			}
 			observed = fmt.Sprintf("(Some %d)", node)
 			v.Count("found")
-			v.Count("returned." + whats[node])
+			v.Count("returned." + strings.SplitN(whats[node], ":", 2)[0])
 		} else {
 			if anyMatch {
 				ok = false
